@@ -91,7 +91,13 @@ def check_ref(repo, chk):
         raise AnalysisError("cal_helicity_angle: daughter loop with a carried offset not found")
     loop = loops[0]
     pmh = parent_map(h.node)
-    tr = Translator(repo, hooks={"binop:Mod": lambda tr_, a, b: sp.Mod(a, b)}, max_depth=1)
+    rz_args = []
+    su2 = repo.cls("tf_pwa/angle.py::SU2M")
+    hooks_ = {"binop:Mod": lambda tr_, a, b: sp.Mod(a, b)}
+    if "Rotation_z" in su2.methods and "Rotation_y" in su2.methods:
+        hooks_[su2.methods["Rotation_z"].key] = lambda tr_, a_, k_, n_: (rz_args.append(a_[-1] if a_ else k_.get("alpha")), sp.Symbol("Rz%d" % len(rz_args), commutative=False))[1]
+        hooks_[su2.methods["Rotation_y"].key] = lambda tr_, a_, k_, n_: sp.Symbol("Ry", commutative=False)
+    tr = Translator(repo, hooks=hooks_, max_depth=1)
     env = {}
 
     def try_exec(st):
@@ -116,6 +122,7 @@ def check_ref(repo, chk):
                 for st in blk[: blk.index(node)]:
                     try_exec(st)
     got = []
+    rz_seen = []
     for k in range(2):
         A = sp.Symbol("A%d" % k, real=True)
         env["ang"] = {"alpha": A, "beta": sp.Symbol("B%d" % k), "gamma": sp.Integer(0)}
@@ -128,6 +135,8 @@ def check_ref(repo, chk):
             else:
                 try_exec(st)
         got.append((A, env["ang"]["alpha"]))
+        rz_seen.append(list(rz_args))
+        del rz_args[:]
     ok = True
     detail = []
     for k, (A, val) in enumerate(got):
@@ -136,6 +145,19 @@ def check_ref(repo, chk):
         same = sp.simplify(sp.sympify(val) - want) == 0 or all(abs(complex(sp.N((sp.sympify(val) - want).subs(A, x)))) < 1e-12 for x in (sp.Rational(-29, 10), sp.Rational(-1, 3), sp.Rational(1, 7), sp.Rational(31, 10), sp.Rational(-61, 10), sp.Rational(5)))
         detail.append("daughter %d: alpha -> %s" % (k, val))
         ok = ok and bool(same)
+    # the SU(2) rotation of the daughter must be built from the same (wrapped) azimuth that is stored: alpha and
+    # alpha - 2 pi differ by a sign in SU(2), which half-integer spins see
+    pts = (sp.Rational(-29, 10), sp.Rational(-1, 3), sp.Rational(1, 7), sp.Rational(31, 10), sp.Rational(-61, 10), sp.Rational(5))
+    for k, (A, val) in enumerate(got):
+        seen_k = rz_seen[k] if k < len(rz_seen) else []
+        if not seen_k:
+            chk.info("cal_helicity_angle: no SU2M.Rotation_z call met in the daughter loop (daughter %d); the rotation / stored-angle agreement is not decided" % k)
+            continue
+        for a_rz in seen_k:
+            same = all(abs(complex(sp.N((sp.sympify(a_rz) - sp.sympify(val)).subs(A, x)))) < 1e-12 for x in pts)
+            chk.instance("R-carry", "cal_helicity_angle daughter %d: SU2M.Rotation_z is given the stored (wrapped) azimuth: %s" % (k, same))
+            if not same:
+                chk.violation("R-carry", h.key, "rotation-angle:%d" % k, "daughter %d: the rotation matrix is built with alpha = %s but the stored helicity angle is %s: the two differ by a multiple of 2 pi for some events, i.e. by a sign of the SU(2) element (half-integer spins: alignment sign no longer cancels)" % (k, a_rz, val), file=CAL, line=loop.lineno)
     chk.instance("R-carry", "cal_helicity_angle: alpha of daughter k is wrapped into [-(k+1) pi, -(k+1) pi + 2 pi) (%s): %s" % ("; ".join(detail), ok))
     if not ok:
         chk.violation("R-carry", h.key, "bias-wrap", "the azimuth range bookkeeping changed: %s; expected (alpha + (k+1) pi) mod 2 pi - (k+1) pi for daughter k = 0, 1" % "; ".join(detail), file=CAL, line=loop.lineno)
